@@ -183,6 +183,7 @@ fn variant_to_schema_expr(
                         variant_attrs.doc,
                         &variant_attrs.aliases,
                     )
+                    .map(|expr| define_once(&name, &expr))
                 }
                 Fields::Unnamed(mut fields) if transparent_newtype && fields.unnamed.len() == 1 => {
                     check_fn(FieldInfo {
@@ -207,6 +208,7 @@ fn variant_to_schema_expr(
                         variant_attrs.doc,
                         &variant_attrs.aliases,
                     )
+                    .map(|expr| define_once(&name, &expr))
                 }
                 Fields::Unit if unit_is_null => {
                     if !only_skip_rename_and_alias_can_be_set {
@@ -237,13 +239,34 @@ fn variant_to_schema_expr(
                     })
                     .map_err(|m| vec![syn::Error::new(variant_span, m)])?;
                     let name_expr = name_expr(&name);
-                    Ok(quote! {
-                        ::apache_avro::schema::Schema::record(#name_expr).build()
-                    })
+                    Ok(define_once(
+                        &name,
+                        &quote! {
+                            ::apache_avro::schema::Schema::record(#name_expr).build()
+                        },
+                    ))
                 }
             }
         }
     }
+}
+
+/// Define the record of a variant only the first time it is needed in a schema and refer to it
+/// afterwards, like any other named type.
+///
+/// The unions made from enums are not named themselves, so when such an enum is used more than
+/// once in a schema the expression for its variants is evaluated more than once.
+fn define_once(name: &str, schema_expr: &TokenStream) -> TokenStream {
+    let name_expr = name_expr(name);
+    quote! {{
+        let name = #name_expr;
+        if named_schemas.contains(&name) {
+            ::apache_avro::schema::Schema::Ref { name }
+        } else {
+            named_schemas.insert(name);
+            #schema_expr
+        }
+    }}
 }
 
 #[derive(Debug)]
